@@ -4,7 +4,18 @@ package main
 // disagreement replays exactly.
 type Rng struct{ s uint64 }
 
-func NewRng(seed uint64) *Rng { return &Rng{s: seed*0x9E3779B97F4A7C15 + 0x1234567} }
+// NewRng: the state for seed 1 is what it has always been (the recorded results of the default runs stay valid); every other
+// seed is passed through the finaliser first, so that two seeds give unrelated streams (with the plain multiple of the
+// increment the stream of seed k+1 was the stream of seed k moved on by one draw: the sweeps with other seeds saw nearly the same cases)
+func NewRng(seed uint64) *Rng {
+	if seed == 1 {
+		return &Rng{s: seed*0x9E3779B97F4A7C15 + 0x1234567}
+	}
+	z := seed + 0x6A09E667F3BCC909
+	z = (z ^ (z >> 30)) * 0xBF58476D1CE4E5B9
+	z = (z ^ (z >> 27)) * 0x94D049BB133111EB
+	return &Rng{s: z ^ (z >> 31)}
+}
 
 func (r *Rng) Next() uint64 {
 	r.s += 0x9E3779B97F4A7C15
